@@ -317,6 +317,11 @@ func genLease(t *rapid.T, p *Program) {
 		if rapid.Bool().Draw(t, "traffic") {
 			p.Actions = append(p.Actions, Action{Op: "apply", Srv: -1, N: oneOf(t, "burst", 1, 3, 10), Dt: rapid.IntRange(0, 30).Draw(t, "dt")})
 		}
+		if rapid.IntRange(0, 2).Draw(t, "failedTransferFirst") == 0 {
+			// a leadership transfer that fails slowly (target cut off and behind): the leader stays
+			p.Actions = append(p.Actions, Action{Op: "slowtransfer", Dt: rapid.IntRange(0, 60).Draw(t, "transferAt"), N: 1, Arg: 1})
+			p.Actions = append(p.Actions, Action{Op: "tick", Dt: oneOf(t, "afterTransfer", 100, 300)})
+		}
 		cut := "cutleader"
 		if rapid.IntRange(0, 3).Draw(t, "selfDemotion") == 0 {
 			cut = "demotecut"
